@@ -64,6 +64,44 @@ thread_local! {
     };
 }
 
+/// After `predict` the tokens tile the text, whatever a caller wrote into the labels before —
+/// also when the same predictor analysed the same object just before.
+fn predicted_tokens_tile_the_text(ctx: &mut Ctx, rs: &RefSentence) {
+    let r = guard(|| {
+        ROUTE_PREDICTOR.with(|p| {
+            let mut s = vaporetto::Sentence::from_raw(rs.text()).expect("from_raw");
+            p.predict(&mut s);
+            let first = observe(&s, false);
+            for (b, &l) in s.boundaries_mut().iter_mut().zip(&rs.labels) {
+                *b = boundary_of(l);
+            }
+            p.predict(&mut s);
+            (first, observe(&s, false))
+        })
+    });
+    ctx.eval(1);
+    ctx.count("sentences_predicted_edited_and_predicted_again", 1);
+    match r {
+        Ok((first, second)) => {
+            let n = rs.chars.len();
+            let mut pos = 0usize;
+            let mut ok = !second.labels.contains(&2) && second.labels == first.labels;
+            for t in &second.tokens {
+                ok &= t.start == pos && t.end > t.start;
+                pos = t.end;
+            }
+            ok &= pos == n && second.tokens.iter().map(|t| t.surface.as_str()).collect::<String>() == rs.text();
+            if !ok {
+                ctx.violation(
+                    "C02:tokens_after_prediction_do_not_tile_the_text",
+                    J::obj(vec![("labels_written_before_second_prediction", J::ints(&rs.labels[..rs.labels.len().min(80)])), ("after_first_prediction", first.to_json()), ("after_second_prediction", second.to_json())]),
+                );
+            }
+        }
+        Err(p) => ctx.violation(&format!("C02:panicked:{}", panic_site(&p)), J::obj(vec![("panic", J::s(&p)), ("route", J::s("predict, edit labels, predict"))])),
+    }
+}
+
 fn c02_check(ctx: &mut Ctx, rs: &RefSentence, variant: &str, route: usize) {
     // the same label vector reached through different histories of the public API
     let route_name = ["from_raw+boundaries_mut", "predict_then_boundaries_mut", "from_partial_annotation", "update_raw_after_text_of_same_shape"][route % 4];
@@ -287,6 +325,10 @@ pub fn run_c02r(ctx: &mut Ctx, from: u64, to: u64) {
         let mut rng = Rng::new(case_seed(ctx.seed, "C02r", k));
         let n = if ctx.tiny {
             rng.urange(1, 12)
+        } else if k % 5000 == 4999 {
+            // character and byte positions beyond 65535
+            ctx.count("sentences_longer_than_65535_chars", 1);
+            rng.urange(66_000, 70_000)
         } else if rng.chance(1, 20) {
             rng.urange(61, 400)
         } else {
@@ -310,6 +352,9 @@ pub fn run_c02r(ctx: &mut Ctx, from: u64, to: u64) {
         c02_check(ctx, &rs, KINDS[kind], k as usize);
         if k % 64 == 0 {
             fallback_after_failed_update(ctx, k / 64);
+        }
+        if k % 8 == 3 && n >= 2 && !rs.chars.contains(&'\0') {
+            predicted_tokens_tile_the_text(ctx, &rs);
         }
         if n >= 2 {
             ctx.nontrivial(fnv(format!("{:?}{:?}{:?}", rs.chars, rs.labels, rs.tags).as_bytes()));
@@ -361,6 +406,27 @@ fn gen_round_trip_sentence(rng: &mut Rng, partial: bool) -> RefSentence {
             for _ in 0..k {
                 tags[i].push(if rng.chance(3, 4) { Some(gen_tag(rng)) } else { None });
             }
+        }
+    }
+    // rare: one annotated position with several hundred tag columns, most of them absent
+    if rng.chance(1, 300) {
+        let i = if partial { rng.below(n) } else { n - 1 };
+        let k = *rng.pick(&[255usize, 256, 257, 300, 600]);
+        tags[i] = (0..k).map(|j| if j % 50 == 7 || j + 1 == k { Some(format!("t{j}")) } else { None }).collect();
+    }
+    RefSentence { chars, labels, tags }
+}
+
+/// A sentence with positions beyond 65535 (sparse tags, every label kind the format allows).
+fn giant_round_trip_sentence(rng: &mut Rng, partial: bool) -> RefSentence {
+    let n = rng.urange(66_000, 68_000);
+    let chars: Vec<char> = (0..n).map(|_| fmt_char(rng)).collect();
+    let labels: Vec<u8> = (0..n - 1).map(|_| if partial { rng.below(3) as u8 } else { rng.below(2) as u8 }).collect();
+    let mut tags: Vec<Vec<Option<String>>> = vec![vec![]; n];
+    for i in 0..n {
+        let token_end = i == n - 1 || labels[i] == 1;
+        if (partial || token_end) && (rng.chance(1, 200) || i + 3 >= n) {
+            tags[i] = vec![Some(gen_tag(rng)), None, Some(gen_tag(rng))];
         }
     }
     RefSentence { chars, labels, tags }
@@ -551,9 +617,46 @@ fn special_states_round_trip(ctx: &mut Ctx, prop: &str, k: u64, partial: bool) {
             observe(&s, false)
         })
     });
-    ctx.eval(2);
-    ctx.count("special_history_states_round_tripped", 2);
+    let r3 = guard(|| {
+        // (c) a tagged sentence analysed by a tag-predicting predictor, written before fill_tags runs
+        ROUTE_TAGLESS.with(|p| {
+            let mut s = vaporetto::Sentence::from_tokenized("ab/X/Y c/Z d").unwrap();
+            p.predict(&mut s);
+            observe(&s, false)
+        })
+    });
+    let r4 = guard(|| {
+        // (d) the default object (one space) with tag columns added, never updated
+        let mut s = vaporetto::Sentence::default();
+        s.reset_tags(2);
+        for t in s.tags_mut().iter_mut() {
+            *t = Some(std::borrow::Cow::Borrowed("T"));
+        }
+        observe(&s, false)
+    });
+    ctx.eval(4);
+    ctx.count("special_history_states_round_tripped", 4);
     let mut states = vec![];
+    match r4 {
+        Ok(o) => {
+            if o.tags.len() != 2 || o.n_tags != 2 {
+                ctx.violation(&format!("{prop}:default_sentence_with_tag_columns_inconsistent"), o.to_json());
+                return;
+            }
+            states.push(("default_sentence_with_tag_columns", o));
+        }
+        Err(p) => {
+            ctx.violation(&format!("{prop}:writer_panicked_on_default_sentence_with_tag_columns:{}", panic_site(&p)), J::obj(vec![("panic", J::s(&p))]));
+            return;
+        }
+    }
+    match r3 {
+        Ok(o) => states.push(("after_predict_with_tag_predictor_before_fill_tags", o)),
+        Err(p) => {
+            ctx.violation(&format!("{prop}:writer_panicked_after_predict_before_fill_tags:{}", panic_site(&p)), J::obj(vec![("panic", J::s(&p))]));
+            return;
+        }
+    }
     match r {
         Ok(v) => states.extend(v),
         Err(p) => {
@@ -569,10 +672,21 @@ fn special_states_round_trip(ctx: &mut Ctx, prop: &str, k: u64, partial: bool) {
         }
     }
     for (name, obs) in states {
-        let Ok(want) = obs.to_ref() else {
+        let Ok(mut want) = obs.to_ref() else {
             ctx.violation(&format!("{prop}:inconsistent_sentence_state:{name}"), obs.to_json());
             continue;
         };
+        if !partial {
+            // the tokenized format carries the tags of tokens (stored on their last character); tag slots
+            // of other characters (left over from an earlier segmentation) are not part of what it denotes
+            let n = want.chars.len();
+            for i in 0..n {
+                let token_end = i + 1 == n || want.labels[i] == 1;
+                if !token_end {
+                    want.tags[i].iter_mut().for_each(|t| *t = None);
+                }
+            }
+        }
         if partial || !want.labels.contains(&2) {
             let written = if partial { obs.partial.clone() } else { obs.tokenized.clone() };
             let back = if partial { fmt::parse_partial(&written) } else { fmt::parse_tokenized(&written) };
@@ -615,7 +729,9 @@ pub fn run_c03(ctx: &mut Ctx, from: u64, to: u64) {
             special_states_round_trip(ctx, "C03", k / 256, false);
         }
         let mut rng = Rng::new(case_seed(ctx.seed, "C03", k));
-        let rs = gen_round_trip_sentence(&mut rng, false);
+        let giant = !ctx.tiny && k % 6000 == 2999;
+        ctx.count("sentences_longer_than_65535_chars", u64::from(giant));
+        let rs = if giant { giant_round_trip_sentence(&mut rng, false) } else { gen_round_trip_sentence(&mut rng, false) };
         count_fmt_facts(ctx, &rs);
         round_trip(ctx, "C03", &rs, false);
         ctx.nontrivial(fnv(format!("{:?}", rs).as_bytes()));
@@ -658,9 +774,12 @@ pub fn run_c04(ctx: &mut Ctx, from: u64, to: u64) {
             special_states_round_trip(ctx, "C04", k / 256, true);
         }
         let mut rng = Rng::new(case_seed(ctx.seed, "C04", k));
-        let rs = gen_round_trip_sentence(&mut rng, true);
+        let giant = !ctx.tiny && k % 6000 == 2999;
+        ctx.count("sentences_longer_than_65535_chars", u64::from(giant));
+        let rs = if giant { giant_round_trip_sentence(&mut rng, true) } else { gen_round_trip_sentence(&mut rng, true) };
         count_fmt_facts(ctx, &rs);
         ctx.flag("sentences_with_unknown_boundary", rs.labels.contains(&2));
+        ctx.flag("sentences_with_more_than_255_tag_columns", rs.max_tags() > 255);
         round_trip(ctx, "C04", &rs, true);
         ctx.nontrivial(fnv(format!("{:?}", rs).as_bytes()));
         if ctx.want_sample() {
@@ -1175,8 +1294,13 @@ pub fn run_c08f(ctx: &mut Ctx, from: u64, to: u64) {
                     "write through boundaries_mut".to_string()
                 }
                 5 => {
-                    let _ = s.update_raw(String::new());
-                    "update_raw(\"\")".to_string()
+                    if rng.chance(1, 2) {
+                        let _ = s.update_raw(String::new());
+                        "update_raw(\"\")".to_string()
+                    } else {
+                        let _ = s.update_raw(" ");
+                        "update_raw(\" \" borrowed)".to_string()
+                    }
                 }
                 _ => {
                     pred.predict(&mut s);
